@@ -667,7 +667,7 @@ func openFromZipReader(zipReader *zip.Reader, filename string) (*Document, error
 //	if err != nil {
 //		log.Fatal(err)
 //	}
-func (d *Document) Save(filename string) error {
+func (d *Document) Save(filename string) (err error) {
 	Infof("正在保存文档: %s", filename)
 
 	// 确保目录存在
@@ -683,11 +683,16 @@ func (d *Document) Save(filename string) error {
 		Errorf("无法创建文件: %s", filename)
 		return WrapErrorWithContext("create_file", err, filename)
 	}
-	defer file.Close()
+	// 关闭文件时的错误（例如磁盘已满时缓冲数据无法落盘）也必须返回给调用者
+	defer func() {
+		if closeErr := file.Close(); closeErr != nil && err == nil {
+			Errorf("无法关闭文件: %s", filename)
+			err = WrapErrorWithContext("close_file", closeErr, filename)
+		}
+	}()
 
 	// 创建ZIP写入器
 	zipWriter := zip.NewWriter(file)
-	defer zipWriter.Close()
 
 	// 序列化主文档
 	if err := d.serializeDocument(); err != nil {
@@ -724,6 +729,12 @@ func (d *Document) Save(filename string) error {
 		}
 
 		Debugf("已写入ZIP条目: %s (%d 字节)", name, len(data))
+	}
+
+	// ZIP 的中央目录和缓冲数据在 Close 时才写出，写入失败必须上报
+	if err := zipWriter.Close(); err != nil {
+		Errorf("无法完成ZIP写入: %s", filename)
+		return WrapErrorWithContext("close_zip", err, filename)
 	}
 
 	Infof("成功保存文档: %s", filename)
